@@ -1,5 +1,9 @@
-(* C18 — what a created queue reports, for every attribute and EVERY kind of target, and the constructor commutations that
-   Properties_C18.v does not export (audit F17 items 2 and 3).
+(* C18 — what a created queue reports, for every attribute and every kind of target of the model, and the constructor commutations
+   that Properties_C18.v does not export (audit F17 items 2 and 3).
+   Limits (audit-2 M18): the LABEL clause is definitional in the model (`c_label := label`: the theorem only records that no branch
+   of the creation drops or replaces it; that the library hands back an equal, privately copied string is checked by the
+   correspondence, not proved); NULL labels are excluded (hypothesis l <> 0); the `TOther` branch (a target without do_targetq that is
+   not a global root: a pthread root queue) is inside the statements but UNTIED: no such queue exists on this build.
    Model: Model/Create.v (hand-written mirror of _dispatch_lane_create_with_target and the getters, on the dq_priority / dq_state /
    dq_atomic_flags WORDS), tied by harness/c18_create.c + lib/props/c18_create.py: label comparison, class and relative priority
    through the public getters, and target / width / state / flags / priority words read from the created queue, for every table
